@@ -518,6 +518,65 @@ func TestC03LinkFrames(t *testing.T) {
 		if err != nil {
 			c.Fatalf("enc pair: %v", err)
 		}
+		// One case in three: the link sessions are derived from the end-to-end
+		// sessions of the two routers, as the link setup does, and during the
+		// history the routers set up new end-to-end keys (a hello exchange over
+		// that very link: the responder re-keys its session in place, the
+		// initiator too or on a fresh object). The link keeps its keys, so its
+		// window must not notice.
+		var pa, pb *state.EncryptionSession
+		rekeyAt := map[int]bool{}
+		if c.Chance("derived", 1, 3) {
+			pa, pb = state.NewEncryptionSession(), state.NewEncryptionSession()
+			kx1, t1, err := pa.InitKeyClientStart()
+			if err != nil {
+				c.Fatalf("kx: %v", err)
+			}
+			kx2, t2, err := pb.InitKeyServer(kx1, t1)
+			if err != nil {
+				c.Fatalf("kx: %v", err)
+			}
+			if err := pa.InitKeyClientComplete(kx2, t2); err != nil {
+				c.Fatalf("kx: %v", err)
+			}
+			la, err1 := pa.DeriveSessionFromKX(true, "link layer crypt")
+			lb, err2 := pb.DeriveSessionFromKX(false, "link layer crypt")
+			if err1 != nil || err2 != nil {
+				c.Fatalf("derive link sessions: %v %v", err1, err2)
+			}
+			ea, eb = la, lb
+			for k, n := 0, c.Int("derived.rekeys", 1, 3); k < n; k++ {
+				rekeyAt[c.Int("derived.rekey.at", 0, len(hist))] = true
+			}
+			c.Class("link-frame/link-sessions-derived-from-end-to-end-sessions")
+		}
+		deliveries := 0
+		beforeDelivery := func() {
+			if pa == nil || !rekeyAt[deliveries] {
+				deliveries++
+				return
+			}
+			deliveries++
+			cl, sv := pa, pb
+			if c.Bool("derived.rekey.receiver-initiates") {
+				cl, sv = pb, pa
+			}
+			if c.Bool("derived.rekey.initiator-on-a-fresh-object") {
+				cl = state.NewEncryptionSession()
+			}
+			kx1, t1, err := cl.InitKeyClientStart()
+			if err != nil {
+				c.Fatalf("kx: %v", err)
+			}
+			kx2, t2, err := sv.InitKeyServer(kx1, t1)
+			if err != nil {
+				c.Fatalf("kx: %v", err)
+			}
+			if err := cl.InitKeyClientComplete(kx2, t2); err != nil {
+				c.Fatalf("kx: %v", err)
+			}
+			c.Class("link-frame/end-to-end-keys-set-up-again-during-the-history")
+		}
 		var frames [][]byte
 		for i := uint32(0); i < maxNum; i++ {
 			payload := []byte(fmt.Sprintf("link-payload-%05d", i))
@@ -529,6 +588,7 @@ func TestC03LinkFrames(t *testing.T) {
 			frames = append(frames, buf)
 		}
 		c03Run(c, "link-frame", hist, func(s uint32) error {
+			beforeDelivery()
 			cp := append([]byte(nil), frames[s-1]...)
 			return peering.LinkFrame(cp).Unseal(eb)
 		}, func(s uint32) error {
